@@ -127,6 +127,56 @@ def parse_out(line):
     return r
 
 
+KEY_STALE_GRAD = 'fista-stale-grad-after-backtrack'
+
+
+def monitor_c06(op_line, out_line, st=None):
+    """C06 facts on a traced FISTA run, recomputed independently of the model: iteration count,
+    status implications, ε of the last callback = returned ε, and — for the criteria that read
+    ∇ψ(x̂) — that the reported ∇ψ(x̂) is the gradient *at the reported x̂* (exact rationals)."""
+    import math
+    from fractions import Fraction as Fr
+    op = S.Op.parse(op_line)
+    r = parse_out(out_line)
+    stx = r.get('stats', {})
+    if stx.get('status') in (None, 'exception'):
+        return None
+    if stx['iterations'] > op.nat('maxiter', 100):
+        return f'iterations {stx["iterations"]} > max_iter {op.nat("maxiter", 100)}'
+    tol = op.flt('tol', 1e-8)
+    tol = tol if tol > 0 else 1e-8
+    cbs = r['cbs']
+    if not cbs:
+        return None if stx['status'] == 'NotFinite' else f'no callback but status {stx["status"]}'
+    last = cbs[-1]
+    if last['k'] != stx['iterations'] or f2h(last['eps']) != f2h(stx['eps']) or last['status'] != stx['status']:
+        return 'final callback (k, ε, status) differs from the returned statistics'
+    if (stx['status'] == 'Converged') != (stx['eps'] <= tol):
+        return f'status {stx["status"]} but ε = {stx["eps"]!r}, tolerance {tol!r}'
+    if stx['status'] == 'MaxIter' and stx['iterations'] != op.nat('maxiter', 100):
+        return 'MaxIter with iterations ≠ max_iter'
+    if stx['status'] == 'Interrupted' and op.nat('stopat') == 0 and op.nat('stopcb') == 0:
+        return 'Interrupted without a stop request'
+    if stx['status'] == 'NotFinite' and math.isfinite(stx['eps']):
+        return 'NotFinite with a finite ε'
+    if op.nat('nanat') or op.nat('crit') not in (0, 1, 8):
+        return None
+    ex = S.Exact(op)
+    y0 = S.frv(op.vec('y0')); Sig = S.frv(op.vec('Sig'))
+    for cb in cbs:
+        if not cb['have_gh'] or any(not math.isfinite(a) for a in cb['xhat'] + cb['grad_psi_hat']):
+            continue
+        g = ex.grad_psi(S.frv(cb['xhat']), y0, Sig)
+        scale = max([abs(float(b)) for b in g] + [abs(a) for a in cb['xhat']] + [1.0])
+        bad = [i for i, (a, b) in enumerate(zip(cb['grad_psi_hat'], g))
+               if abs(Fr(a) - b) > Fr(1e-9) * Fr(scale) * (1 + max(abs(float(v)) for v in ex.Q + [Fr(1)])) ** 2]
+        if bad:
+            i = bad[0]
+            return (f'k={cb["k"]}: reported ∇ψ(x̂)[{i}] = {cb["grad_psi_hat"][i]!r} but ∇ψ at the reported x̂ is '
+                    f'{float(g[i])!r} (ε = {cb["eps"]!r} was computed from it; L = {cb["L"]!r})', KEY_STALE_GRAD)
+    return None
+
+
 def replay(ops, exe=None, drv=None, show=3):
     """Run ops through harness and driver; returns (n, n_bad, status counter, first mismatches)."""
     import collections
